@@ -31,7 +31,8 @@ def main():
             rep.violation('lu<%s> (%s permutation) of a %s %dx%d %s matrix (seed %s) under %s: |L*U-P*A| = %.3g, |reconstruct-A| = %.3g exceed 16*n*eps*||L||U|| = %.3g' % (strat, enc, FAMN[fam], n, n, ty, p[4], cfg.name, r, rr, bound),
                           replay_of(11, n, ty, cfg, p), key='residual:%s:%s:%d:%s:%s' % (strat, enc, n, ty, cfg.name))
     n_model = linlib.model_compare(11, rows, rep)
-    rep.cov.update({'records_compared_exactly_with_the_coq_model': n_model, 'evaluations': n_eval, 'distinct_nontrivial': len(jobs),
+    n_piv = linlib.pivot_compare(rows, rep)
+    rep.cov.update({'records_compared_exactly_with_the_coq_model': n_model, 'pivot_records_compared_exactly_with_the_coq_model': n_piv, 'evaluations': n_eval, 'distinct_nontrivial': len(jobs),
                     'rule': 'four LU strategies, pivoted ones with the permutation returned as a vector and as a matrix; L and U pre-filled with a sentinel so that entries the code never writes show; sizes %s; float and double; families as C10; exact structure (unit lower / upper, exact zeros), bijective permutation, |L*U-P*A| and |reconstruct(L,U,P)-A| <= 16*n*eps*||L||U||; growth ||L||U||/|A| > 64 counted, not judged' % (linlib.QUICK_SIZES if tr == 'quick' else linlib.THOROUGH_SIZES),
                     'configurations': sorted(set(c.name for _, _, c in jobs)), 'size_type_configuration_triples': ['%d/%s/%s' % (n, ty, c.name) for n, ty, c in jobs],
                     'distribution': dist, 'counted_not_judged_(growth)': skipped, 'worst_residual_over_n*eps*growth': {k: round(v, 3) for k, v in sorted(worst.items())}, 'traces_validated_against_impl': n_model})
